@@ -214,3 +214,55 @@ Theorem C01_leaves_distinct_paths :
     NoDup (map e_key es) /\ distinct_paths (map e_key es) = true.
 Proof. exact leaves_distinct_paths. Qed.
 Print Assumptions C01_leaves_distinct_paths.
+
+(* literals are stored verbatim: for every datatype other than boolean, the five integer
+   types, dateTime and double (xsd:string, rdf:langString, custom types) the entry's value
+   is the lexical form itself, character for character (no trimming, no case folding);
+   an IRI object is stored as the IRI *)
+Theorem C01_literals_verbatim :
+  forall F prime ds es,
+  is_map ds -> entries_from_rdf F prime ds = Ok es ->
+  Forall2 (fun e iq =>
+             (forall lex d, qo (snd iq) = NLit lex d -> classify d = DOther ->
+                            e_val e = XStr lex /\ e_dt e = d) /\
+             (forall s, qo (snd iq) = NIri s -> e_val e = XStr s /\ e_dt e = ""%string))
+          es (value_quads ds).
+Proof. exact literals_verbatim. Qed.
+Print Assumptions C01_literals_verbatim.
+
+(* the stored value and datatype are a function of the quad's object (datatype and
+   lexical form) only: not of the position, the path or the neighbours *)
+Theorem C01_value_function_of_object :
+  forall F prime ds e e' iq iq',
+  fact F prime ds e iq -> fact F prime ds e' iq' -> qo (snd iq) = qo (snd iq') ->
+  e_val e = e_val e' /\ e_dt e = e_dt e'.
+Proof. exact value_function_of_object. Qed.
+Print Assumptions C01_value_function_of_object.
+
+(* success accounts for every quad: each literal/IRI quad is stated by one of the entries,
+   each blank-object quad is a registered parent; nothing is left out silently *)
+Theorem C01_every_quad_accounted :
+  forall F prime ds es i q,
+  is_map ds -> entries_from_rdf F prime ds = Ok es -> quad_at ds i = Some q ->
+  (is_value q = true -> exists e, In e es /\ fact F prime ds e (i, q)) /\
+  (is_value q = false -> exists k, key_at ds i = Some k /\ child_nodes ds k <> []).
+Proof. exact every_quad_accounted. Qed.
+Print Assumptions C01_every_quad_accounted.
+
+(* hence a dataset with an ill-typed literal is never merklized (with C01_blank_leaf_rejected
+   for empty nodes and C01_shared_rejected for nodes with two parents: the rejected shapes) *)
+Theorem C01_ill_typed_rejected :
+  forall F prime ds i q lex d,
+  is_map ds -> quad_at ds i = Some q -> qo q = NLit lex d ->
+  (forall x, convert F d lex prime <> Ok x) ->
+  forall es, entries_from_rdf F prime ds <> Ok es.
+Proof. exact ill_typed_rejected. Qed.
+Print Assumptions C01_ill_typed_rejected.
+
+Theorem C01_non_integer_rejected :
+  forall F prime ds i q lex d k,
+  is_map ds -> quad_at ds i = Some q -> qo q = NLit lex d ->
+  classify d = DInt k -> int_from_str lex = None ->
+  forall es, entries_from_rdf F prime ds <> Ok es.
+Proof. exact non_integer_rejected. Qed.
+Print Assumptions C01_non_integer_rejected.
